@@ -10,7 +10,8 @@ Round 3 (harness/c07_spell.py): the TEXT of a recursive definition is a dimensio
 recursive string-valued aliases (alone, mutually recursive, in cycles through classes) and cyclic classes with string
 annotations, each written in every legal spelling (bare / typing. / t. / from-imported / collections.abc. / quoted
 inside / quoted as a whole), classes presenting their hints at class level, only in the __init__ signature, or
-nested in another class.  Aliases: reference semantics vs implementation; classes: the three mechanism streams.
+nested in another class.  Both strata: the three mechanism streams (since Model/Build.v handles alias objects of the
+environment: notes/buildalias.md) + order_ok on every observed order, the orders of what the lazy proxies resolve included.
 """
 from __future__ import annotations
 
@@ -33,7 +34,7 @@ import universe
 COQ_TARGETS = ["theories/Props/C07.vo", "theories/Model/BuildTables.vo", "theories/Model/CoreTables.vo",
                "theories/Props/C05Bridge.vo", "theories/Model/GraphBridgeEq.vo"]
 COQ_TARGETS = COQ_TARGETS + [t for t in c17_hints.COQ_TARGETS if t not in COQ_TARGETS]
-THEOREMS = ["C07_build_total", "C07_no_raw_level", "C07_all_depths"]
+THEOREMS = ["C07_build_total", "C07_no_raw_level", "C07_all_depths", "C07_string_alias_lazy"]
 EDGES = ["opt", "list", "dict", "tuple", "bar"]
 
 
@@ -247,7 +248,7 @@ def correspond(run: lib.Run):
             f"{len(gc)} class modules ({sum(len(g.cases) for g in gc)} cases)")
     run._c07 = (groups, records, D, ga, ra, gc, rc)
     problems = []
-    for g in groups + gc:
+    for g in groups + gc + ga:
         for t in g.pytys:
             g.collect_orders(t)
         problems += g.order_problems
@@ -257,14 +258,17 @@ def correspond(run: lib.Run):
     records = records + rc
     run.oblige("tie:every observed graph node has a model annotation", not problems, "; ".join(problems[:3]))
     run.log("observed orders collected")
-    # recursive string-valued aliases: outside the mechanism model (its named objects are classes), inside the
-    # reference semantics (NType): member-wise conversion of every level, whatever the text looks like.
-    # (evaluated while the mechanism streams are: both are coqc processes)
+    # recursive aliases (string-valued in every spelling, PEP 695 statements; alone, mutually recursive, in cycles
+    # through classes): the same three comparisons -- reference semantics (NType), the mechanism along the observed
+    # orders (the alias node is a lazy proxy for the reference to its text, resolved through the factory at call
+    # time: Build.unwrap / construct / run), mechanism vs reference semantics.
+    # (evaluated while the class streams are: both are coqc processes)
     import threading
-    alias_bad, alias_done = [], []
+    alias_bad, alias_done = [[], [], []], []
 
     def eval_aliases():
-        alias_bad.extend(coremodel.evaluate_groups(run, ga, "c07a", per_file=5))
+        bs_a, bm_a, ba_a = coremodel.evaluate_groups_mech(run, ga, "c07a", per_file=5)
+        alias_bad[0].extend(bs_a); alias_bad[1].extend(bm_a); alias_bad[2].extend(ba_a)
         alias_done.append(True)
     th = threading.Thread(target=eval_aliases)
     if run.tier != "thorough":
@@ -298,12 +302,17 @@ def correspond(run: lib.Run):
         c17_hints.hints_obligations(run, bridge_groups, "c07")
     except Exception as ex:
         run.oblige("tie:c17_hints.hints_obligations ran to completion", False, repr(ex)[:400])
-    bad = alias_bad if alias_done else [(g, i) for g in ga for i in range(len(g.cases))]
+    allbad = [(g, i) for g in ga for i in range(len(g.cases))]
     na = sum(len(g.cases) for g in ga)
-    run.record_corr("reference-semantics-vs-implementation:recursive-string-aliases", na,
-                    [dict(g.cases[i][4], module_source=g.src[g.src.index("import typing as t"):][:600]) for g, i in bad],
-                    len({(g.env["module"], c[0], c[1], c[2]) for g in ga for c in g.cases}),
-                    dict(c07_spell.distribution(ga, ra), observed_raise=sum(1 for g in ga for c in g.cases if "Raise" in c[3])))
+    adist = dict(c07_spell.distribution(ga, ra), observed_raise=sum(1 for g in ga for c in g.cases if "Raise" in c[3]),
+                 observed_orders=sum(len(g.orders["u"]) for g in ga))
+    for k, layer in enumerate(("reference-semantics-vs-implementation:recursive-string-aliases",
+                               "mechanism-on-observed-order-vs-implementation:recursive-aliases",
+                               "mechanism-vs-reference-semantics:recursive-aliases")):
+        bad = alias_bad[k] if alias_done else allbad
+        run.record_corr(layer, na,
+                        [dict(g.cases[i][4], module_source=g.src[g.src.index("import typing as t"):][:600]) for g, i in bad],
+                        len({(g.env["module"], c[0], c[1], c[2]) for g in ga for c in g.cases}), adist)
 
 
 # ----------------------------------------------------------------------------------
